@@ -85,6 +85,10 @@ def check_parse(u, encoding, res, seen):
         if k3 != 'ok':
             v = 'parse_url_or_log raised %s: %s' % (
                 type(v3).__name__ if v3 else 'Timeout', str(v3)[:60])
+        elif v3 is not None:
+            bad = _read_all_attrs(v3)
+            if bad:
+                v = 'result of parse_url_or_log: %s' % bad
     res['outcomes'][okey] = res['outcomes'].get(okey, 0) + 1
     if v:
         record(res, seen, v, dict(url=esc(u), encoding=encoding, kind='parse'))
@@ -168,6 +172,8 @@ def jobs(tier, seed):
     for i in range(len(UA.SIGMA)):
         js.append(dict(kind='sigma', maxlen=3 if tier == 'quick' else 4, first=i))
     js.append(dict(kind='join', big=(tier != 'quick')))
+    from vt import histfork
+    js += histfork.hist_jobs(len(hist_alphabet({})), tier)
     if tier != 'quick':
         for i in range(len(UA.SCHEMES)):
             js.append(dict(kind='product', reduced=False, scheme=i))
@@ -182,6 +188,10 @@ def run_job(job):
     res = dict(evaluations=0, states=set(), transitions=0, outcomes={}, violations=[],
                samples=[], distinct=set(), extra={})
     seen = set()
+    if job['kind'] == 'hist':
+        from vt import histfork
+        histfork.run_hist_job('vt.checks.c11', PROPERTY, job, res, seen)
+        return res
     URLInfo.parse.cache_clear()
     kind = job['kind']
     if kind == 'special':
@@ -234,7 +244,87 @@ def run_job(job):
     return res
 
 
+# ------------------------------------------------------------------ call histories
+# Parsing is memoised (lru_cache on URLInfo.parse, encoder maps); a URL must be accepted or
+# rejected - and its attributes readable - whatever was parsed before it, in particular the
+# same host twice.
+HIST_URLS = ['http://a]b/first.html', 'http://a]b/second.html', 'http://A]B/third',
+             'http://x[1].example.com/y', 'http://good.example/x', 'http://good.example/y',
+             'http://[::1]/a', 'http://[::1/a', 'http://exa mple.com/', 'http://ex%ample.com/',
+             'http://\udce9.example/', 'http://example.com:99999/', 'http://example.com:8a/',
+             'http://' + 'a' * 64 + '.com/', 'http://a..b/', 'http://a\x00b/', 'mailto:x',
+             '//noscheme', '', 'http://:80', 'http://u:p@/', 'http://a]b:80/',
+             'http://\u00fc\udc80/', 'http://good.example:80/x']
+
+
+def hist_prepare(args):
+    import wpull.url            # noqa
+    import wpull.scraper.util   # noqa
+
+
+def hist_alphabet(args):
+    out = [[fn, u] for u in HIST_URLS for fn in ('parse', 'log')]
+    out += [['join', 'http://a]b/first.html'], ['join', 'http://good.example/x'],
+            ['join', '//x[1].example.com/y'], ['join', '../\udce9']]
+    return [[fn, esc(u)] for fn, u in out]
+
+
+def _read_all_attrs(ui):
+    for a in ACCESSORS + SLOTS:
+        k2, v2 = guarded(getattr, ui, a)
+        if k2 != 'ok':
+            return 'reading .%s raised %s' % (a, type(v2).__name__)
+    for mname in METHODS:
+        k2, v2 = guarded(getattr(ui, mname))
+        if k2 != 'ok':
+            return 'calling .%s() raised %s' % (mname, type(v2).__name__)
+    return None
+
+
+def hist_eval(item):
+    from wpull.url import URLInfo, parse_url_or_log
+    from wpull.scraper.util import urljoin_safe
+    fn, u = item[0], unesc(item[1])
+    signal.signal(signal.SIGALRM, _alarm)
+    signal.setitimer(signal.ITIMER_REAL, 10.0)
+    try:
+        if fn == 'join':
+            k, val = guarded(urljoin_safe, 'http://base.example/d/p', u)
+            if k == 'ok':
+                return ['ok', esc(val) if isinstance(val, str) else None]
+            return [k, type(val).__name__]
+        k, val = guarded(URLInfo.parse if fn == 'parse' else parse_url_or_log, u)
+        if k != 'ok':
+            return [k, type(val).__name__]
+        if val is None:
+            return ['ok', None]
+        bad = _read_all_attrs(val)
+        if bad:
+            return ['attr', bad]
+        return ['ok', esc(val.url)]
+    except Timeout:
+        return ['timeout', None]
+    finally:
+        signal.setitimer(signal.ITIMER_REAL, 0)
+
+
+def hist_judge(item, obs):
+    fn = item[0]
+    if obs[0] == 'other':
+        return '%s raised %s' % (fn, obs[1])
+    if obs[0] == 'attr':
+        return 'result of %s: %s' % (fn, obs[1])
+    if obs[0] == 'timeout':
+        return '%s does not terminate within 10 s' % fn
+    if obs[0] == 'valueerror' and fn in ('log', 'join'):
+        return '%s raised ValueError' % fn
+    return None
+
+
 def replay(rec):
+    if rec['kind'] == 'hist':
+        from vt import histfork
+        return histfork.replay_hist('vt.checks.c11', rec)
     from wpull.url import URLInfo
     URLInfo.parse.cache_clear()
     res = dict(evaluations=0, outcomes={}, violations=[], distinct=set())
